@@ -84,7 +84,7 @@ def spec_scat2(x, biort, qshift, b, colour):
     return np.stack(out)
 
 
-def oracle_layer(ck, order, biort, qshift, b, colour, x):
+def oracle_layer(ck, order, biort, qshift, b, colour, x, force=None):
     import torch
     from pytorch_wavelets import ScatLayer, ScatLayerj2
     from ..impl_dwt import T, N as NP
@@ -93,8 +93,9 @@ def oracle_layer(ck, order, biort, qshift, b, colour, x):
     H, W = x.shape[-2:]
     kk = KF if (order == 2 and (H == 2 or W == 2)) else None
     try:
-        mod = ScatLayer(biort=biort, magbias=b, combine_colour=bool(colour)) if order == 1 else \
-            ScatLayerj2(biort=biort, qshift=qshift, magbias=b, combine_colour=bool(colour))
+        from ..impl_scat import scat_module
+        mod = scat_module(1, x, force, biort=biort, magbias=b, combine_colour=bool(colour)) if order == 1 else \
+            scat_module(2, x, force, biort=biort, qshift=qshift, magbias=b, combine_colour=bool(colour))
         mod = mod.double()
         # parameters were created in float32 before the default dtype is consulted? they follow get_default_dtype (float64 here)
         y = NP(mod(T(x)))
@@ -146,6 +147,8 @@ def oracle(ck, extended):
     q = ck.tier == 'quick'
     # deterministic witness of the recorded finding
     rt.guard(ck, oracle_layer, ck, 2, 'near_sym_a', 'qshift_a', 1e-2, 0, npr.standard_normal((1, 1, 2, 8)))
+    for (order, qs_, force) in [(2, 'qshift_a', 'alt'), (2, 'qshift_06', 'alt'), (1, 'qshift_a', 'deferred'), (2, 'qshift_a', 'deferred')]:
+        rt.guard(ck, oracle_layer, ck, order, 'near_sym_a', qs_, 1e-2, 0, npr.standard_normal((1, 2, 16, 8)), force)
     n = (14 if q else 120) * (2 if extended else 1)
     for it in range(n):
         biort, qshift = rng.choice(FAMS)
